@@ -354,11 +354,11 @@ fn deep_part<'a>(tier: Tier, sys: &'a Sys) -> Part<'a, Sys> {
         sys,
         cfgs: match tier {
             Tier::Quick => cfgs(&[(3, 2), (2, 2)], &[None, Some(0)]),
-            Tier::Thorough => cfgs(&[(3, 2), (2, 2), (1, 2), (2, 3), (4, 3)], &[None, Some(0), Some(2)]),
+            Tier::Thorough => cfgs(&[(3, 2), (2, 2), (1, 2)], &[None, Some(0), Some(2)]),
         },
         alphabet: &alpha_deep,
-        depth: tier.pick(6, 8),
-        seconds: tier.pick(20.0, 1800.0),
+        depth: tier.pick(6, 7),
+        seconds: tier.pick(20.0, 2400.0),
         validated: false,
         nontrivial: None,
     }
